@@ -69,7 +69,7 @@ def gen_corr(rnd, i):
     else:
         c["condition"] = {op: rnd.randint(1, 20), "field": "f"}
         if t == "value_percentile":
-            c["condition"]["percentile"] = 75
+            c["condition"]["percentile"] = rnd.choice([0, 50, 75, 100])
     d = {"title": f"Corr {i}", "id": str(uuid.UUID(int=0x6000 + i)), "correlation": c, "level": "high"}
     if rnd.random() < 0.5: d["name"] = f"corr_{i}"
     return d
